@@ -40,6 +40,35 @@ func (si *StrideInfo) linOf(v ssa.Value, depth int) lin {
 	switch x := v.(type) {
 	case *ssa.Convert:
 		return si.linOf(x.X, depth+1)
+	case *ssa.Phi:
+		// a lagging cursor: `for prev, i := a, a+stride; ...; prev, i = i, i+stride` keeps prev == i - stride
+		if len(x.Edges) == 2 {
+			for _, in := range x.Block().Instrs {
+				sib, ok := in.(*ssa.Phi)
+				if !ok {
+					break
+				}
+				if sib == x || len(sib.Edges) != 2 {
+					continue
+				}
+				lag := true
+				for k := range sib.Edges {
+					if bo, isStep := sib.Edges[k].(*ssa.BinOp); isStep && bo.Op == token.ADD && bo.X == ssa.Value(sib) && si.isStrideV(bo.Y) {
+						if x.Edges[k] != ssa.Value(sib) {
+							lag = false
+						}
+						continue
+					}
+					li, ls := si.linOf(x.Edges[k], depth+1), si.linOf(sib.Edges[k], depth+1)
+					if li.Base != ls.Base || li.M != ls.M-1 || li.C != ls.C {
+						lag = false
+					}
+				}
+				if lag {
+					return lin{Base: sib, M: -1, OK: true}
+				}
+			}
+		}
 	case *ssa.BinOp:
 		a, b := si.linOf(x.X, depth+1), si.linOf(x.Y, depth+1)
 		switch x.Op {
